@@ -31,13 +31,14 @@ def halves(a):
 class Session(object):
     """one simulated machine + controller + the trace being recorded"""
 
-    def __init__(self, rng, bufsize, window, fate=None, w=2, h=2):
+    def __init__(self, rng, bufsize, window, fate=None, w=2, h=2, told=True):
         self.rng = rng
         self.sim = SimMachine(w, h, STRUCT_TEXT, buffer_size=bufsize, legacy_version=True, name="SCMP")
         self.net = SimNet(self.sim, fate)
         self.net.install(scp_connection, machine_controller)
         self.mc = MachineController("sim", n_tries=6)
-        self.mc._scp_data_length = bufsize          # what the machine advertises through sver
+        if told:                                    # (otherwise the controller has to ask the machine itself)
+            self.mc._scp_data_length = bufsize      # what the machine advertises through sver
         self.mc._window_size = window
         self.bufsize = bufsize
         self.windows = []        # [chip, origin, size]
@@ -210,6 +211,39 @@ def misc_session(rng, bufsize, window, fate, label):
         s.close()
 
 
+def first_op_session(rng, bufsize, window, fate, kind, label):
+    """a fresh controller whose very first memory operation is `kind` (nothing has asked the machine for its buffer
+    size yet), longer than the buffer"""
+    s = Session(rng, bufsize, window, fate, w=3, h=2, told=False)
+    try:
+        chip = (rng.randrange(3), rng.randrange(2))
+        link = Links(rng.randrange(6))
+        dx, dy = link.to_vector()
+        nb = ((chip[0] + dx) % 3, (chip[1] + dy) % 2)
+        origin = SDRAM_BASE + 0x800
+        n = 4 * ((bufsize // 4) * 2 + rng.randrange(1, 4))
+        s.watch(nb, origin, n + 24)
+        s.watch(chip, origin, n + 24)
+        a = origin + 4 * rng.randrange(3)
+        data = bytes(rng.randrange(256) for _ in range(n))
+        ops = {"link_read": lambda: s.op("read", nb, halves(a), n, None,
+                                         lambda: s.mc.read_across_link(a, n, chip[0], chip[1], link)),
+               "link_write": lambda: s.op("write", nb, halves(a), n, data,
+                                          lambda: s.mc.write_across_link(a, data, chip[0], chip[1], link)),
+               "read": lambda: s.op("read", chip, halves(a + 1), n - 3, None,
+                                    lambda: s.mc.read(a + 1, n - 3, chip[0], chip[1])),
+               "write": lambda: s.op("write", chip, halves(a + 1), n - 3, data[:n - 3],
+                                     lambda: s.mc.write(a + 1, data[:n - 3], chip[0], chip[1])),
+               "fill": lambda: s.op("fillw", chip, halves(a), n, list(struct.pack("<I", 0x01020304) * (n // 4)),
+                                    lambda: s.mc.fill(a, 0x01020304, n, chip[0], chip[1], 0))}
+        ops[kind]()
+        for k in rng.sample(sorted(ops), 2):
+            ops[k]()
+        return s.trace(label)
+    finally:
+        s.close()
+
+
 def _packed(v, pack, cnt):
     fmt = {"C": "B", "c": "b", "v": "H", "h": "h", "V": "I", "I": "I", "i": "i"}[pack]
     vals = list(v) if isinstance(v, (list, tuple)) else [v]
@@ -232,13 +266,19 @@ def run(chk):
                 rate = rng.choice((0, 0, 0.05, 0.1))
                 traces.append(rw_session(rng, B, window, off, lengths, faults(rng, rate),
                                          "rw B=%d W=%d off=%d faults=%s" % (B, window, off, rate)))
+    # every kind of operation as the first thing a fresh controller does
+    for B in chk.pick((16, 128), (8, 16, 64, 128, 255, 256)):
+        for kind in ("link_read", "link_write", "read", "write", "fill"):
+            window = rng.choice((1, 2, 4))
+            traces.append(first_op_session(rng, B, window, faults(rng, rng.choice((0, 0, 0.05))), kind,
+                                           "first operation %s B=%d W=%d" % (kind, B, window)))
     # large transfers
-    for i in range(chk.pick(6, 60)):
+    for i in range(chk.pick(6, 150)):
         B = rng.choice((16, 64, 255, 256, 250))
         n = rng.choice((1000, 1023, 1024, 2049, 4096 + rng.randrange(7)))
         traces.append(rw_session(rng, B, rng.randint(1, 8), rng.randrange(4), [n], faults(rng, rng.choice((0, 0.05))),
                                  "large B=%d n=%d" % (B, n)))
-    for i in range(chk.pick(60, 1200)):
+    for i in range(chk.pick(60, 3000)):
         B = rng.choice((4, 7, 8, 16, 255, 256))
         rate = rng.choice((0, 0, 0.05, 0.15))
         traces.append(misc_session(rng, B, rng.randint(1, 4), faults(rng, rate), "misc B=%d faults=%s" % (B, rate)))
